@@ -11,4 +11,4 @@ one() {
   rm -rf "$T"
 }
 export -f one
-ls /verif/${HELDOUT_DIR:-heldout}/${1:-t_*}.diff | xargs -P 8 -I{} bash -c 'one {}'
+ls /verif/${HELDOUT_DIR:-heldout}/${1:-t_*}.diff | xargs -P ${JOBS:-8} -I{} bash -c 'one {}'
